@@ -111,6 +111,9 @@ func (p *MP4ChunkParser) GetBuffer() []byte {
 	return p.buf
 }
 
+// minBufferGrowth is the smallest step (beyond doubling) by which the buffer grows.
+const minBufferGrowth = 64 * 1024
+
 // readUntil reads from the reader until the contentEnd is reached.
 // The buffer is resized as needed.
 func (p *MP4ChunkParser) readUntil(contentEnd int) error {
@@ -118,12 +121,20 @@ func (p *MP4ChunkParser) readUntil(contentEnd int) error {
 		return nil
 	}
 	for {
-		if contentEnd > len(p.buf) {
-			// Resize buffer
-			newBuf := make([]byte, contentEnd-len(p.buf)+1024)
-			p.buf = append(p.buf, newBuf...)
+		if p.contentEnd == len(p.buf) {
+			// Resize buffer. A declared box size is only a claim, so grow with the data that
+			// actually arrives (at most doubling) instead of allocating the claimed size at once.
+			grow := contentEnd - len(p.buf) + 1024
+			if maxGrow := len(p.buf) + minBufferGrowth; grow > maxGrow {
+				grow = maxGrow
+			}
+			p.buf = append(p.buf, make([]byte, grow)...)
 		}
-		n, err := p.r.Read(p.buf[p.contentEnd:contentEnd])
+		end := contentEnd
+		if end > len(p.buf) {
+			end = len(p.buf)
+		}
+		n, err := p.r.Read(p.buf[p.contentEnd:end])
 		p.contentEnd += n
 		if err != nil {
 			return err
